@@ -34,6 +34,32 @@ S3 = [((1, 0, 0, 0), 1), ((0, 0, 0, 1), 1), ((1, 1, 1, 1), 2), ((1, 2, 2, 4), 5)
       ((4, 0, 0, 3), 5), ((12, 0, 0, 5), 13), ((0, 0, 3, 4), 5)]
 
 
+# frame pairs (short, long) where the value of one is a prefix / substring of the other's: cam_traffic_light vs cam_traffic_light_near,
+# cam_front vs cam_front_left, radar_back vs radar_back_right ... -- never the same frame, in any position of a key
+PREFIX_PAIRS = [(a, b) for a in FRAMES for b in FRAMES if a != b and FRAMES[a].lower() in FRAMES[b].lower()]
+
+
+def edge_quats():
+    """exact unit quaternions (w, axis component) about the x-, y- and z-axis with angles next to 0 (0.23 deg, 0.00023 deg), next to pi
+    (the same distances from the half turn), next to pi/2 (90.5 deg / 89.5 deg) and beyond 120 deg about a dominated axis (w = 1/5, 2/7);
+    either sign"""
+    out = []
+    pairs = []
+    for m in (1000, 10 ** 6):
+        pairs += [(Fraction(m * m - 1, m * m + 1), Fraction(2 * m, m * m + 1)), (Fraction(2 * m, m * m + 1), Fraction(m * m - 1, m * m + 1))]
+    pairs += [(Fraction(119, 169), Fraction(120, 169)), (Fraction(120, 169), Fraction(119, 169))]
+    for w, a in pairs:
+        for ax in (1, 2, 3):
+            for sg in ((1, 1), (1, -1), (-1, 1)):
+                q = [Fraction(0)] * 4
+                q[0], q[ax] = sg[0] * w, sg[1] * a
+                out.append(tuple(q))
+    for v, n in (((1, 4, 2, 2), 5), ((1, 2, 4, 2), 5), ((1, 2, 2, 4), 5), ((2, 6, 3, 0), 7), ((2, 0, 6, 3), 7), ((2, 3, 0, 6), 7)):
+        out.append(tuple(Fraction(x, n) for x in v))
+        out.append(tuple(Fraction(-x, n) for x in v))
+    return out
+
+
 # ------------------------------------------------------------------------------------------------
 # exact quaternion arithmetic for generators and the oracle (Fractions; independent of the Coq model:
 # a rotation is the sandwich product q (0,v) q^*)
@@ -282,6 +308,27 @@ class RigidCorr(Corr):
                 for form in ("tuple", "matrix3", "matrix4"):
                     out.append({"kind": "single", "T": {"q": q, "t": t, "src": {"member": "BASE_LINK"}, "dst": {"str": "map"}, "form": form},
                                 "p": [1.0, 0.0, 0.0], "r": [[2, 7], [3, 7], [6, 7], [0, 1]], "rform": "tuple"})
+        # numeric edges of the rotation: every form (quaternion in, matrix in), inv() and the pose route extract a quaternion from a matrix
+        eq = edge_quats()
+        if tier == "quick":
+            eq = [q for i, q in enumerate(eq) if i % 3 == rng.randrange(3) or i >= len(eq) - 12]
+        for i, q in enumerate(eq):
+            s, d = rng.sample(FRAME_KEYS, 2)
+            out.append({"kind": "single", "stream": "edge_angle",
+                        "T": {"q": quat_json(q), "t": rand_vec(rng, big=(i % 5 == 0)), "src": rand_spelling(rng, s), "dst": rand_spelling(rng, d),
+                              "form": ("tuple", "matrix3", "matrix4", "Quaternion", "rot4x4")[i % 5]},
+                        "p": rand_vec(rng, big=(i % 4 == 0)), "r": quat_json(eq[(7 * i + 3) % len(eq)] if i % 2 else rand_quat(rng)),
+                        "rform": rforms[i % 4]})
+        # composition across frames whose names contain one another: X->short then long->Y (and the reverse) must be rejected, X->short then
+        # short->Y accepted
+        for k, (sh, lo) in enumerate(PREFIX_PAIRS):
+            x, y = rng.sample([f for f in FRAME_KEYS if f not in (sh, lo)], 2)
+            for first_dst, second_src in ((sh, lo), (lo, sh), (sh, sh), (lo, lo)):
+                if tier == "quick" and (first_dst == second_src) and k % 3:
+                    continue
+                chain = [rand_rigid(rng, x, first_dst), rand_rigid(rng, second_src, y)]
+                out.append({"kind": "chain", "stream": "prefix_frames", "chain": chain, "p": rand_vec(rng), "r": quat_json(rand_quat(rng)),
+                            "via": [("dot", "transform", "transform_kw")[k % 3]]})
         for i in range(n_single):
             s, d = rng.sample(FRAME_KEYS, 2) if rng.random() < 0.9 else [rng.choice(FRAME_KEYS)] * 2
             out.append({"kind": "single", "T": rand_rigid(rng, s, d, big=(i % 7 == 0)), "p": rand_vec(rng, big=(i % 11 == 0)),
@@ -541,9 +588,18 @@ class RigidCorr(Corr):
 
     def distribution(self, cases, obs):
         d = {"kinds": {}, "forms": {}, "chain_lengths": {}, "rejected_compositions": 0, "negative_w": 0, "int_typed_positions": 0,
-             "int_typed_translations": 0}
+             "int_typed_translations": 0, "edge_angle_singles(next to 0 / pi / pi/2, > 120 deg about x / y / z)": 0,
+             "chains_over_frames_whose_names_contain_one_another": {"rejected": 0, "accepted": 0},
+             "single_rotations_beyond_120_deg_by_dominant_axis": {"x": 0, "y": 0, "z": 0}}
         for c, o in zip(cases, obs):
             d["kinds"][c["kind"]] = d["kinds"].get(c["kind"], 0) + 1
+            d["edge_angle_singles(next to 0 / pi / pi/2, > 120 deg about x / y / z)"] += c.get("stream") == "edge_angle"
+            if c.get("stream") == "prefix_frames" and isinstance(o, dict):
+                d["chains_over_frames_whose_names_contain_one_another"]["rejected" if "error" in o else "accepted"] += 1
+            if c["kind"] == "single":
+                w_, x_, y_, z_ = fr_quat(c["T"]["q"])
+                if w_ * w_ < Fraction(1, 4):
+                    d["single_rotations_beyond_120_deg_by_dominant_axis"][max((x_ * x_, "x"), (y_ * y_, "y"), (z_ * z_, "z"))[1]] += 1
             if c["kind"] == "single":
                 d["int_typed_positions"] += all(isinstance(x, int) for x in c["p"])
                 d["int_typed_translations"] += all(isinstance(x, int) for x in c["T"]["t"])
@@ -652,6 +708,29 @@ class RegistryCorr(Corr):
                         ops.append({"op": "query", "a": a, "b": b})
                 c["ops"] = ops
             out.append(c)
+        # frames whose names contain one another, in every position of the registered and of the queried key
+        for k, (sh, lo) in enumerate(PREFIX_PAIRS):
+            o_ = rng.choice([f for f in FRAME_KEYS if f not in (sh, lo)])
+            regs = [
+                ([(o_, lo)], [(o_, sh), (sh, o_), (o_, lo), (lo, o_)]),
+                ([(o_, lo), (o_, sh)], [(o_, sh), (o_, lo), (sh, o_), (lo, o_)]),
+                ([(sh, lo)], [(sh, lo), (lo, sh), (sh, sh), (lo, lo)]),
+                ([(lo, sh), (sh, o_)], [(sh, lo), (lo, sh), (lo, o_), (o_, sh)]),
+                ([(sh, o_)], [(lo, o_), (o_, lo), (sh, o_)]),
+            ]
+            for ri, (entries, queries) in enumerate(regs):
+                reg = [rand_rigid(rng, a_, b_, forms=("tuple", "Quaternion", "matrix3")) for a_, b_ in entries]
+                if tier == "quick":
+                    queries = [q_ for qi, q_ in enumerate(queries) if (qi + k + ri) % 2 == 0]
+                for qa, qb in queries:
+                    c = {"stream": "prefix_frames", "registry": reg, "a": rand_spelling(rng, qa), "b": rand_spelling(rng, qb),
+                         "keyobj": rng.random() < 0.4, "arg": rng.choice(("point", "pose", "point_kw", "matrix")), "p": rand_vec(rng)}
+                    if c["arg"] == "pose":
+                        c["r"] = quat_json(rand_quat(rng))
+                        c["rform"] = "tuple"
+                    if c["arg"] == "matrix":
+                        c["M"] = rand_rigid(rng, qb, rng.choice([sh, lo, o_]), forms=("tuple",))
+                    out.append(c)
         # constructor shape (list / tuple / a single matrix / None / no argument) and the read accessors get / [] before or after the query
         for i, c in enumerate(out):
             if "ctor" not in c:
@@ -908,8 +987,12 @@ class RegistryCorr(Corr):
              "cases_with_operation_sequence": sum(1 for c in cases if c.get("ops")),
              "operations": {k: sum(1 for c in cases for op in c.get("ops", []) if op["op"] == k) for k in ("query", "set", "del")},
              "constructor": {}, "accessors_get_getitem": {"found": 0, "absent": 0, "bad_name": 0},
-             "observation_TransformKey_eq_raw_tuple_of_same_frames": {"equal": 0, "not_equal": 0}}
+             "observation_TransformKey_eq_raw_tuple_of_same_frames": {"equal": 0, "not_equal": 0},
+             "queries_over_frames_whose_names_contain_one_another": {}}
         for c, o in zip(cases, obs):
+            if c.get("stream") == "prefix_frames":
+                k_ = self._expected(c)[0]
+                d["queries_over_frames_whose_names_contain_one_another"][k_] = d["queries_over_frames_whose_names_contain_one_another"].get(k_, 0) + 1
             if not c["registry"] and c.get("ctor") in ("none", "noarg"):
                 ck = "None" if c["ctor"] == "none" else "no argument"
             else:
@@ -956,7 +1039,13 @@ class C18(Prop):
             "matrices with duplicates and X->X entries, point/pose/matrix arguments; registries built from a list / tuple / single matrix / "
             "None / no argument; get / [] under the query's key spelling before or after the query (oracle: the entry registered last for "
             "X->Y, None / KeyError otherwise) and len() = number of distinct registered frame pairs; rigid: rotation also as a 4x4 matrix "
-            "to the constructor, int-typed positions and translations; non-trivial = non-identity rotation and non-zero "
+            "to the constructor, int-typed positions and translations; edge_angle stream: exact unit quaternions about the x-, y- and z-axis "
+            "0.23 deg / 0.00023 deg away from the identity and from the half turn, 0.5 deg on either side of the quarter turn, and rotations "
+            "beyond 120 deg about x- / y- / z-dominated axes, either sign, through every input form, inv(), dot() and the pose route (each "
+            "extracts a quaternion from a matrix); prefix_frames streams: all 11 frame pairs whose values contain one another "
+            "(cam_traffic_light / cam_traffic_light_near, cam_front / cam_front_left, radar_back / radar_back_right ...) in every position of "
+            "the registered and of the queried key (direct / inverse / identity / KeyError, every spelling) and as the joint of two-step "
+            "compositions (X->short then long->Y must be rejected); non-trivial = non-identity rotation and non-zero "
             "translation (rigid) / non-empty registry")
     assumptions = ["rotations are rational unit quaternions (the implementation receives the nearest binary64 values)",
                    "np.linalg.inv / Quaternion(matrix=) modelled by their closed forms", "ASCII-only model of str.lower()"]
